@@ -905,6 +905,8 @@ func runC07(c *Ctx) {
 	ruleNoReentrantLock(c, buildSyncModel(c), "R07.f")
 	ruleNoWriteUnderReadLock(c, "R07.g")
 	ruleClientSizedAllocations(c, "R07.h")
+	// a panic in the connection goroutine is confined to the offender only if no lock is held without defer at that point
+	ruleConnLoopIndexSafety(c, "R07.o")
 	c.assume("handlers do not call os.Exit themselves; stack exhaustion and out-of-memory are not recoverable and not decided")
 }
 
@@ -924,6 +926,8 @@ func runC19(c *Ctx) {
 	ruleNoAliasedSnapshots(c, "R19.l")
 	// a loop that can spin keeps its goroutine, socket and registry entry for ever
 	ruleLoopProgress(c, "R19.h")
+	// a goroutine that writes to another connection's socket can be parked there for as long as that peer does not read: its own socket, registry entry and goroutine are then never released (R8C19-m1)
+	ruleSingleWriteSiteAs(c, "R19.m")
 	c.assume("a peer that stops reading keeps the goroutine blocked in Write until it goes away (no write deadline exists); not a leak once the peer is gone")
 }
 
